@@ -9,7 +9,10 @@ TESTS = ["TestRing", "TestLinkedList", "TestElastic", "TestElasticRing"]
 
 def build(VERIF, BUILD, GO, ENV, log):
     out = os.path.join(BUILD, "comp.test")
-    r = subprocess.run([GO, "test", "-c", "-tags", "verif", "-overlay", os.path.join(BUILD, "overlay", "overlay.json"), "-o", out + ".new", "./comp"],
+    extra = []
+    if os.environ.get("VERIF_REPO") and os.path.exists(os.path.join(BUILD, "go.alt.mod")):
+        extra = ["-modfile=" + os.path.join(BUILD, "go.alt.mod")]
+    r = subprocess.run([GO, "test", "-c", "-tags", "verif"] + extra + ["-overlay", os.path.join(BUILD, "overlay", "overlay.json"), "-o", out + ".new", "./comp"],
                        cwd=os.path.join(VERIF, "sim"), env=ENV, capture_output=True, text=True)
     if r.returncode != 0:
         log("check: component build failed (exit 2, not a violation):\n" + r.stdout[-3000:] + r.stderr[-3000:])
